@@ -635,3 +635,132 @@ PROPS["C13"] = dict(
                  "update_frame and chunk embeddings are not part of the history model (index membership: C14)"],
     allowed_axioms=[],
 )
+
+PROPS["C40"] = dict(
+    corr_module="Corr.C40",
+    streams={"hist": dict(runner="C40_run", in_t="C40_in", out_t="C40_out", shard=6, imports=["Model.Store", "Model.VecStore", "Model.Bulk"]),
+             "presize": dict(runner="C40_presize_run", in_t="C40_presize_in", out_t="C40_presize_out", shard=100, imports=["Model.Bulk"])},
+    n_quick=24, n_thorough=500,
+    harness_timeout=3000,
+    rule="document sets of 5-60 documents (short text with a probe word / text >= 2500 chars split into chunk frames / binary; 20-50 KB binaries that cross the automatic checkpoint and grow the log; explicit uris; "
+         "timestamps with ties and out-of-order values; 4-dimensional embeddings on 0 / 30 / 50 / 80 % of the documents; 1 in 8 with default PutOptions = instant_index, auto_tag, triplets) ingested three ways in three files: "
+         "plain puts + commit; begin_batch(random skip_sync / disable_auto_checkpoint / compression_level 0,1,3,11 / wal_pre_size_bytes 0,1,65536,65537,100000,2^20,2^20+1,random) + puts + end_batch/commit in either order, "
+         "one time in three with a prefix of the documents put (and half of the time committed) before begin_batch; puts with 1-5 commit_skip_indexes in between + finalize_indexes, one time in three inside begin_batch/end_batch; "
+         "each followed by the battery (frame table id/uri/status/content tag/role/parent, timeline (id, ts), 10 word searches as hit-id sequences: probe word, 5 vocabulary words, 4 unique document tokens; 3 vector searches k=10) live and after close+reopen; "
+         "property oracle = any pairwise difference between the batteries of the batch / skip file and the plain file (class skip-commit-drops-embeddings iff the path used commit_skip_indexes, some document has an embedding and ONLY vector searches differ); "
+         "model correspondence per op: (result, frame_count, next_frame_id), log-region size, Stats.vec_enabled + the documents search_vec / frame_embedding reach, and at every commit / finalize_indexes / reopen the timeline ids and the engine's documents (probe-word search, top_k 5000); "
+         "stream presize: begin_batch{wal_pre_size_bytes} on a memory holding 1-6 committed documents: new log size and every payload_offset against ensure_wal_capacity / adjust_offsets, contents re-read live and after reopen; "
+         "non-trivial = at least 5 documents and both batteries taken (hist) / the log region grew (presize); distinct by digest of the op list",
+    level_text="Unbounded theorems over a model of begin_batch / end_batch / PutManyOpts (options as state), ensure_wal_capacity, commit_from_records, commit_skip_indexes(_inner), finalize_indexes, rebuild_indexes (three Tantivy branches, build_vec_artifact, time index), Drop / open / recover_wal on top of the frame-table model of C01: "
+               "for ALL document lists, all batch options, both orders of end_batch / commit and every timing of automatic checkpoints and log growth on either path, the batch path shows exactly what plain puts + commit show (frames, content tags, timestamps, timeline, engine documents, vector documents), "
+               "generalised to every history over put / begin_batch / end_batch / commit / finalize_indexes / reopen with the markers at arbitrary positions, live and after reopen; for every history over the whole alphabet (commit_skip_indexes included) the exposed frames are the reference table, and finalize_indexes leaves exactly the timeline and engine documents of plain puts, also after reopen; "
+               "the vector half of commit_skip_indexes + finalize_indexes is refuted (vm_compute witness: one embedded put, skip commit, finalize: empty index, live and after reopen) and proved outside the class 'history uses commit_skip_indexes and has an embedded put'; ensure_wal_capacity and the data shift are characterised. Model tied to the code by the three-way ingestion of random document sets on real memories.",
+    level_note="Vector-search half REFUTED for commit_skip_indexes + finalize_indexes, recorded as known finding skip-commit-drops-embeddings (F-C40-1); proved outside it. Partial: index CONTENTS are compared as document sets (Tantivy's ranking / BM25, VecIndex::search ranking are not modelled: the property oracle compares the real hit sequences pairwise instead); "
+               "per-frame text flags, chunk counts, automatic-checkpoint timing, lex-record counts and log growth are oracle inputs observed on the implementation and universally quantified in the theorems; content = tag of the canonical (decoded) payload, so compression_level is invisible by the zstd round-trip oracle; skip_sync only moves the model's unsynced counter (durability belongs to C03); "
+               "payload offsets are modelled for the pre-size shift only (stream presize), not through commits. Trusted: Coq kernel + vm_compute; hand-written model (tied by correspondence); the frame-table model and proofs of C01.",
+    trusted_base=["oracle inputs of each op (automatic checkpoint happened + its lex records, log region grew, number of chunk frames, lex records appended by commit / finalize_indexes, probe-word flags of the frames) are read from the implementation through the public API and cfg(memvid_verif) hooks wal_stats / data_region",
+                  "the engine's document set is observed through a probe-word search (top_k 5000, sketch filter off); the vector index through search_vec(k = 10^6) + frame_embedding",
+                  "content identity = BLAKE3 of the canonical payload mapped to tags by the harness"],
+    assumptions=["an embedding, when given, has at least one component (doc_ok, as C14's emb_ok)", "documents only: no update / delete inside the compared paths (those are C01 / C08 / C14)", "no I/O errors",
+                 "known finding outside which the vector theorem holds: the history uses commit_skip_indexes and has a put with an embedding",
+                 "observation (not flagged by this check, reproduced with MV_C40_PROBE=1): ensure_wal_capacity does not add delta to cached_payload_end (grow_wal_region does since fix 63cb5ab); begin_batch{wal_pre_size_bytes} on a non-empty memory followed by a rebuild with no payload insert (finalize_indexes, a delete-only commit) moves data_end back inside the log region and the next put's payload is written there ('payload overlaps wal region'); any put + commit in between heals it, which is why the three paths of the property are not affected"],
+    allowed_axioms=[],
+)
+
+PROPS["C42"] = dict(
+    corr_module="Corr.C42",
+    streams={"vac": dict(runner="C42_run", in_t="C42_in", out_t="C42_out", shard=2, timeout=1200)},
+    n_quick=24, n_thorough=600,
+    harness_timeout=3000,
+    rule="one real memory per case: 0-22 ops (puts of binary / text / chunked / embedded documents, payload and payload-less updates incl. two payload-less updates of one frame before a commit, deletes, commits, reopen; profile 2 adds a put larger than the room left in the log so the log region doubles and every payload moves; profile 5 = empty / tiny / everything deleted), final commit, then vacuum() (on the serving handle or on a fresh one) or doctor{vacuum:true, +rebuild_time/lex} and reopen; "
+         "model input = frame table with windows + file bytes [data start, footer offset) + data_end / cached_payload_end / footer offset / pending records read through hooks; compared = windows of all frames, payload bytes [data start, end of last payload), data_end, pending records, verify outcome; "
+         "oracle on the implementation alone: every column of every frame but its window (Debug of the Frame), content hash + stored bytes of active frames, (0,0) windows of inactive ones, contiguity, 13-17 queries (10 searches with / without sketch pre-filter incl. boolean / phrase / uri: field / no-match, timeline both ways, up to 3 vector searches) as sets, reopen, verify(deep) right after and after reopen, payload region / file size, put + commit after the vacuum (same session or after reopen) leaves all contents readable; "
+         "non-trivial = the table has active frames and (bytes are reclaimable or windows are shared or the log grew); distinct by digest of the model input",
+    level_text="Unbounded theorems over a byte-level model of Memvid::vacuum (frame table + file bytes from the data start; read phase into a map keyed by frame id, in-place write phase, data_end = cursor, rebuild_indexes writing an arbitrary index image at the un-updated cached_payload_end, lex batch record left pending; doctor = the same + Finalize checkpoint): for EVERY table meeting the store invariant (distinct ids, active windows in bounds; windows may overlap or be shared arbitrarily) the rewrite keeps id / status / role / metadata / length / exact bytes of every active frame and gives inactive frames (0,0); including the index rebuild the same holds for every index image whenever data start + active bytes <= cached_payload_end, which is proved to hold for every table without shared windows (pairwise-disjoint-intervals lemma), with the closed-form contiguous layout (zero-length frames get the running end), pairwise disjoint windows afterwards, the invariant re-established, the payload region not growing, and the table view used by search / timeline / index rebuild (hence Tantivy document set, time index, any function of the view) unchanged. Tied to the code by real-memory histories: model vs implementation on windows, payload bytes, data_end, pending records, verify.",
+    level_note="Property as stated is REFUTED in two places, recorded as known findings: F-C42-1 (content changes when active frames share a window and the copies overflow the old payload region: vacuum does not update cached_payload_end; witness by vm_compute, proved outside the class, class proved empty without sharing) and F-C42-2 (verify right after vacuum() is Failed on every lex-enabled memory: pending lex batch record; Passed after reopen / through doctor). F-C42-3 (the file never shrinks, usually grows slightly) is reported by a size-only stream. Trusted: Coq kernel + vm_compute; hand-written model of mutation.rs vacuum / rebuild_indexes placement / frame.rs validate_frame_bounds; the index image, TOC bytes, Tantivy / vector index contents, zstd and BLAKE3 are oracles (search / timeline equality is checked on the implementation only); offsets unbounded (no u64 overflow); no log growth during the rebuild's lex record; crash safety of the in-place rewrite belongs to C02; rank ORDER of search hits is compared as a tag only (BM25 statistics change when deleted documents leave the index), hit sets and snippets exactly; doctor's rebuild_vec_index flag is not combined (on its own it empties the vector index: doctor's defect).",
+    trusted_base=["Coq 8.16.1 kernel incl. vm_compute", "hand-written model coq/Model/Vacuum.v tied by correspondence (harness/src/c42.rs, shared driver harness/src/store.rs, hooks data_region / header_fields / wal_stats)", "index image / TOC / Tantivy / vector index / zstd / BLAKE3 as oracles"],
+    assumptions=["store invariant (distinct frame ids; active windows empty or inside [data start, data_end] and below cached_payload_end; data_end, cached_payload_end inside the file)", "offsets are unbounded naturals (no u64 overflow)", "the lex batch record appended during the rebuild does not grow the log region"],
+    allowed_axioms=[],
+)
+
+PROPS["C11"] = dict(
+    corr_module="Corr.C11",
+    streams={
+        "exact": dict(runner="C11_run", in_t="C11_in", out_t="C11_out", shard=60),
+        "trunc": dict(runner="C11_trunc_run", in_t="C11_trunc_in", out_t="C11_trunc_out", shard=60),
+        # stream "ask" is an observation (tags only): the property is about Memvid::search
+    },
+    n_quick=540, n_thorough=6000,
+    harness_timeout=3000,
+    rule="real memories of 3-60 short documents (60 requests per memory, so n/60 memories + the fixed 6-document witness memory of F-C11-1): every document has its OWN 7-letter vocabulary "
+         "(2-5 words) plus 0-3 words of a small shared pool ('distinct' / 'mixed'), one memory in six shares a single vocabulary ('oneVocab', all sketches alike); explicit timestamps increasing / decreasing / random / "
+         "heavily tied and not monotone in the id; some frames deleted (biased to frame 0, frame 1 and the earliest timestamp), extra commits, close+reopen in 1/4; "
+         "queries: a word of one document, a shared word (several frames on both sides of the cut-off), two words (AND), OR, an absent word, date-range-only, each optionally with date:[a TO b] (RFC 3339 bounds on / around frame timestamps, one side open, inverted); "
+         "cut-offs chosen AFTER looking at what the query matches and at its sketch candidates: as_of_frame / as_of_ts on, one below and one above a matching frame (id and timestamp ties), below / above the whole range, 0, u64::MAX, i64::MAX, none, "
+         "and in ~25% of the requests strictly below every sketch candidate (replay set and sketch set disjoint on purpose); no_sketch in 1/4; top_k 100 (non-truncating) or 0 / 1 / 2-4 (truncating). "
+         "Compared per request: exact stream (top_k and doc_limit do not truncate: no next_cursor in either response and active frames <= max(4*top_k,20)) -- the sorted hit frame ids of Memvid::search must equal the model's "
+         "(filter F composed by the model from frame table, time index, date range, cut-offs, has_sketches, has_text_terms, no_sketch and the observed sketch candidates; hits = engine oracle U restricted to F, "
+         "U = hits of the same query with no as_of_*, no_sketch and top_k 10000); trunc stream -- hits are a subset of the model's set and number min(|set|, max(top_k,1)); both streams also compare the harness's "
+         "class predicate with Coq's known_fallback. Property oracle on the implementation alone: a hit with id > as_of_frame or timestamp > as_of_ts; in the non-truncating regime a hit that the same request without as_of_* does not return. "
+         "Tags give the split truncating / non-truncating, cut-off kinds, replay set empty / proper / all, sketch stage applied, fallback reached. "
+         "non-trivial = as_of_* given and the query matches at least one frame; distinct by digest of (frame table, query, cut-offs, flags, candidates, U)",
+    level_text="Unbounded theorems over the line-by-line model of the candidate-filter composition at the top of Memvid::search (date range -> temporal -> replay ids -> sketch candidates, all early empty-response exits) and of "
+               "get_replay_frame_ids, over abstract frame-id sets, for every frame table, time index, request, sketch candidate set and engine: get_replay_frame_ids is exactly {active, id <= n, timestamp <= t}; whenever as_of_* is given the final "
+               "candidate filter exists and is a subset of the replay set, so (engine returns only members of its filter) every hit is an active frame with id <= n and timestamp <= t; adding as_of_* never adds a hit "
+               "(engine monotone in the filter = non-truncating regime). The property AS STATED IS REFUTED: when the filter built so far and the non-empty sketch candidate set are disjoint the code replaces the filter by the sketch set "
+               "('Fall back to sketch-only'), dropping as_of_* (C11_as_of_refuted / C11_as_of_ts_refuted by vm_compute, reproduced on real memories, finding F-C11-1); all theorems are proved outside exactly that class (known_fallback), "
+               "the class is characterised (the engine is handed only ids outside the replay set), and the same theorems are proved with NO class excluded for the repaired composition (empty response instead of the fallback; "
+               "runner C11_run_fixed ready).",
+    level_note="Property as stated REFUTED in one class recorded as known finding F-C11-1 (sketch-fallback-drops-asof); proved outside it. Monotonicity ('never adds a hit') is stated for requests that top_k and doc_limit do not truncate: "
+               "with truncation the filtered request legitimately surfaces lower-ranked frames that the unfiltered one cut off, the evidence tags count both regimes. Trusted: Coq kernel + vm_compute; hand-written model Model/AsOf.v "
+               "(tied by the exact/trunc streams on real memories); the engine (Tantivy / legacy lex fallback / filters-only scan + ParsedQuery::evaluate) is a Section variable with hypotheses 'returns only members of the filter', "
+               "'monotone in the filter', 'a filter never adds a hit', instantiated in the correspondence by the table of what the real engine returns unfiltered; find_sketch_candidates, required_date_range and the time index are inputs "
+               "observed through public API / the query_facts hook; the temporal_track stage is modelled but compiled out of the default build. `ask` forwards as_of_* to search but its timeline fallback ignores them "
+               "(observed, stream 'ask', not part of this property).",
+    trusted_base=["engine oracle: U = frame ids returned by the real Memvid::search for the same query with no as_of_*, no_sketch = true, top_k = 10000; the model's engine(F) = U restricted to F",
+                  "sketch candidates, has_sketches, the date range and the time index entries are read from the implementation (find_sketch_candidates, has_sketches, verif_hooks::query_facts, timeline)"],
+    assumptions=["engine hypotheses (Section variables in Proofs/AsOfProofs.v, satisfiable: Example C11_engine_hypotheses_satisfiable): with a candidate filter the engine returns only members of it; for monotonicity, it is monotone in the filter and a filter never adds a hit (non-truncating regime)",
+                 "default cargo features (lex, pdf_extract, simd): the temporal_track stage and the temporal-anchor branch of frame_ids_in_date_range are compiled out; modelled as an input / not modelled respectively",
+                 "frame ids are unique in the frame table (NoDup hypothesis of the per-frame theorems; frame.id is the table index)",
+                 "known finding outside which the theorems hold: sketch stage applies with a non-empty candidate set disjoint from the non-empty filter built so far (known_fallback)"],
+    allowed_axioms=[],
+)
+
+PROPS["C16"] = dict(
+    corr_module="Corr.C16",
+    streams={
+        "walk": dict(runner="C16_walk_run", in_t="C16_walk_in", out_t="C16_walk_out", shard=24, imports=["Model.SearchPage"]),
+        "page": dict(runner="C16_page_run", in_t="C16_page_in", out_t="C16_page_out", shard=40, imports=["Model.SearchPage"]),
+    },
+    n_quick=16, n_thorough=240,
+    harness_timeout=3000,
+    rule="n corpora, each one real memory with one commit: 1-80 documents containing 'zebra' (sizes cycling through 1-8, 9-19, exactly 20, exactly 21, 22-30, 31-45, 46-80, random: around the doc_limit floor 20 and its 4*(k+offset) steps) with 1 / 1-2 / 1-4 occurrences "
+         "(gaps 5-65 bytes = merged slice, 90-120 = borderline, 150-270 = separate slices; with or without sentence punctuation), 0-7 documents that do not match, in one corpus of four up to two chunked documents (3-4.5 kB, chunk frames with non-zero chunk start), "
+         "timestamps all equal (half) or on 2-4 day levels or hour levels (recency re-sort active). One request top_k=1000 = one-shot stream + per frame BM25 score, chunk range, chunk text; from these the oracles of the model: engine ranking (score desc, frame id asc), "
+         "slice tables for caps 1-6 via verif_hooks::snippet_slices (self-checked against the one-shot ranges), f32 combined scores by the code's formula. Stream walk: page sizes 0,1..10 and one of 11/16/25/50/999, following next_cursor to the end (fuel 400): every page's (frame, range) list, total_hits, next_cursor "
+         "and the way the walk ends compared with the end-to-end model -- also where doc_limit or the snippet cap binds. Stream page: single requests with cursors at/after total_hits of the first page and of the one-shot answer, random mid-document offsets, padded ' n ', '+n', '00n', empty, blank, non-numeric, > u64::MAX, far beyond, "
+         "top_k 0 and 100000, and the two usize overflows of top_k.max(1)+cursor (debug panic, predicted by the model), plus a query nothing matches. Property oracle (implementation only): concatenated pages = one-shot stream, no (frame, range) twice, none missing, total_hits constant and equal to the one-shot's, "
+         "walk ends with next_cursor absent and no error, no page above top_k, next_cursor < total_hits; failures tagged by input predicates (candidates > max(20,4*max(k,1)); some frame's slices at cap k differ from its uncapped slices; neither). "
+         "non-trivial = walk of more than one page / request answered; distinct by corpus digest + page size + cursor",
+    level_text="Unbounded theorems over a line-by-line model of parse_cursor, offset_hint/doc_limit, the evaluation loop's snippet cap, the recency re-sort and the page loops of try_tantivy_search and search_with_lex_fallback. "
+               "LAYER (proved for every evaluated list, every emit function incl. both pipelines, with and without the early break, every page size incl. 0, every one-shot size that holds all hits): following next_cursor terminates with next_cursor absent after at most max(1,total) pages, never errs, "
+               "the pages are a partition of the slice stream into consecutive intervals with strictly increasing cursors, each page holding exactly the hits of its interval and at most top_k of them, concatenation = the one-shot hits, total_hits constant and equal to the one-shot's; the same from any valid resume cursor; cursor > total_hits -> InvalidCursor. "
+               "END TO END (engine = prefix oracle of a fixed ranking, combined-score function arbitrary): the property as stated is REFUTED in two classes -- F-C16-1 more candidates than the first page's doc_limit (witness: 21 candidates, page size 1: a hit returned twice, the one-shot's first hit never returned, total_hits 20 then 21), "
+               "F-C16-2 a document with more snippet slices than the page size (max_snippets_per_doc = top_k: witness one document, two slices, page size 1: one hit, total_hits 1 vs 2) -- and PROVED outside them (C16_e2e_outside_known) for every candidate list, page size, one-shot size and scoring function. "
+               "Tied to the code by walks and single requests on real memories compared page by page with the end-to-end model, including the regimes where the limits bind.",
+    level_note="Property as stated is REFUTED on the unchanged tree (known findings F-C16-1, F-C16-2; classes decided by predicates on the input that are the hypotheses of C16_e2e_outside_known). Trusted: Coq kernel + vm_compute; hand-written model (tied by correspondence); "
+               "Tantivy's TopDocs as 'first doc_limit of one fixed ranking by (score desc, doc address asc)'; compute_snippet_slices as a per-frame table (its own model is C35's); the f32 expression of the recency boost as a table computed by the harness with the code's formula; "
+               "candidates culled by the evaluation loop (c_keep = false) and candidate filters (sketch, date range, as-of) are in the model and theorems but not reached by the correspondence (no public way to observe raw engine hits); "
+               "the clamped-empty-slice branch of the page loop is modelled and proved but unreachable through the public API (compute_snippet_slices already clamps to the text).",
+    trusted_base=["engine oracle: the request sees firstn doc_limit of the ranking (score desc, frame id asc) reconstructed from the scores in the top_k=1000 answer; a wrong reconstruction shows up as a correspondence mismatch, not as a silent pass",
+                  "combined : score bits -> age -> f32 bits is a Section variable in the theorems (they hold for every function); in the correspondence it is the table of values computed in f32 with the formula copied from tantivy.rs",
+                  "slice tables: verif_hooks::snippet_slices on the chunk text and the occurrences of the query token, caps 1-6, self-checked against the one-shot ranges"],
+    assumptions=["timestamps within +-2^62 (max_ts - timestamp does not overflow i64)", "BM25 scores positive and finite (f32 order = order of bit patterns)",
+                 "end-to-end theorem: top_k.max(1) + total_hits <= usize::MAX; otherwise the debug build panics on the add (modelled, observed in the page stream: a C22 matter, reported separately)",
+                 "candidate filter absent in the correspondence (no_sketch = true, no date range, no as-of)"],
+    allowed_axioms=[],
+)
+
+# checks whose model is being updated to a repaired /repo: not claimed until re-merged
+for _p in ("C11", "C42"):
+    if _p in PROPS: PROPS[_p]["hold"] = True
